@@ -298,7 +298,16 @@ class LayerSet(BaseObject):
                 progressBar.update(text="Saving glyphs...", increment=0)
             layer = self.defaultLayer
             glyphSet = writer.getGlyphSet(layerName=None, defaultLayer=True, validateRead=self.ufoLibReadValidate, validateWrite=self.ufoLibWriteValidate)
-            layer.save(glyphSet, saveAs=saveAs, progressBar=progressBar)
+            layerSaveAs = saveAs
+            if not saveAs and layer._glyphSet is None:
+                # the one glyph directory of a UFO 1 or 2 holds the glyphs of
+                # the layer that was the default layer when it was written.
+                # this layer became the default layer since: nothing in the
+                # directory belongs to it, and all of its glyphs must go there.
+                for glyphName in list(glyphSet.keys()):
+                    glyphSet.deleteGlyph(glyphName)
+                layerSaveAs = True
+            layer.save(glyphSet, saveAs=layerSaveAs, progressBar=progressBar)
             layer.dirty = False
             if progressBar is not None:
                 progressBar.update()
